@@ -53,6 +53,34 @@ def run_one(job):
         shutil.rmtree(scratch, ignore_errors=True)
 
 
+def run_for_property(prop):
+    """Run every mutant that lists `prop` against the rules of `prop`; {name: 'CAUGHT'|'MISSED'|'ERROR'}."""
+    man = load_manifest()
+    jobs = []
+    for name, m in sorted(man["mutants"].items()):
+        if prop in m.get("properties", []):
+            jobs.append((name, os.path.join(fw.VERIF, m["patch"]), [prop], 0))
+    if not jobs:
+        return {}
+    workers = min(8, len(jobs))
+    jobs = [(a, b, c, i % workers) for i, (a, b, c, _) in enumerate(jobs)]
+    by_slot = {}
+    for j in jobs:
+        by_slot.setdefault(j[3], []).append(j)
+    os.makedirs(SCRATCH_ROOT, exist_ok=True)
+    out = {}
+    with ProcessPoolExecutor(max_workers=workers) as ex:
+        for res in ex.map(_run_slot, list(by_slot.values())):
+            for name, r in res:
+                if "error" in r:
+                    out[name] = "ERROR: " + r["error"][:100]
+                else:
+                    fired = sorted({rule for rule, key, d in r["violations"].get(prop, [])})
+                    out[name] = ("CAUGHT by " + ",".join(fired)) if fired else "MISSED"
+    shutil.rmtree(SCRATCH_ROOT, ignore_errors=True)
+    return out
+
+
 def main(argv):
     man = load_manifest()
     only = set(a for a in argv if not a.startswith("-"))
